@@ -214,6 +214,13 @@ OPT_VALUES = ['', ' ', '0', '1', '-1', '4', '64', '100000', '2147483648', '-2147
               'clustal', 'FASTA', 'mSf', 'dna', 'rna', 'protein', 'divergent', 'internal', 'DNA', 'prot', 'in.dat', 'missing.fa', 'res', 'out.afa', 'res/out.afa', '/', '.', '..', 'a' * 300, 'b' * 520, 'c' * 700, 'd' * 3000, './' * 350 + 'in.dat', '%s%n%d', '\xff\xfe', '-q', '--gpo']
 
 
+CUT = b'\x01NEXT-FILE\x01'
+
+
+def pieces_of(data):
+    return data.split(CUT + b'\n')
+
+
 def random_args(rng):
     a = []
     for _ in range(rng.randint(1, 5)):
@@ -226,7 +233,9 @@ def random_args(rng):
 def gen_spec(prop, rng, tier):
     wl = gen.gen_workload(rng, weights=[25, 45, 12, 4, 2, 6, 6])
     if rng.random() < 0.03:
-        wl = gen.gen_workload(rng, profile=rng.choice(['many', 'boundary']))       # > 512 records: array growth in every reader
+        wl = gen.gen_workload(rng, profile=rng.choice(['many', 'boundary', 'seqcap']))       # > 512 records: array growth in every reader
+    if wl['profile'] in ('tiny', 'small') and rng.random() < 0.12:
+        gen.force_exact_length(rng, wl)      # residue counts that sit exactly on the readers' buffer sizes
     vg = 1 if rng.random() < (0.02 if tier == 'quick' else 0.06) else 0
     if vg and tier == 'quick' and wl['profile'] in ('hirsch', 'kmeans', 'medium', 'ratio'):
         vg = 0                         # memcheck is ~30x slower: quick tier keeps to small inputs
@@ -248,6 +257,25 @@ def gen_spec(prop, rng, tier):
         if len(data) > 200000:
             data = data[:200000]          # keep one scenario (x ~25 fault placements) affordable
     mode = rng.choices(['cli', 'lib', 'arr'], [6, 3, 1])[0] if cls != 'options' else 'cli'
+    if fmt_in == 'fasta' and mode != 'arr' and rng.random() < (0.8 if wl['profile'] == 'seqcap' else 0.2):
+        # the records arrive in 2-3 sources (kalign a b c / several kalign_read_input calls into one object): a marker
+        # line stands for "next file"; with the seqcap profile the first source often ends exactly at the array capacity
+        starts = [i for i in range(1, len(data)) if data[i:i + 1] == b'>' and data[i - 1:i] == b'\n']
+        if starts:
+            cuts = set(rng.sample(starts, min(len(starts), rng.choice([1, 1, 2]))))
+            if wl['profile'] == 'seqcap' and len(starts) >= 512 and rng.random() < 0.8:
+                cuts = {starts[511]} | ({starts[1023]} if len(starts) >= 1024 and rng.random() < 0.5 else set())
+            for c in sorted(cuts, reverse=True):
+                data = data[:c] + CUT + b'\n' + data[c:]
+            if rng.random() < 0.25:
+                # one of the sources is an empty file (leading, in the middle, or last)
+                where = rng.choice(['lead', 'mid', 'mid', 'last'])
+                if where == 'lead':
+                    data = CUT + b'\n' + data
+                elif where == 'last':
+                    data = data + CUT + b'\n'
+                else:
+                    data = data.replace(CUT + b'\n', CUT + b'\n' + CUT + b'\n', 1)
     fmt_out = rng.choice(['fasta', 'msf', 'clu']) if 'name_with_blanks' not in muts else 'fasta'
     nthreads = rng.choice([1, 2, 4, 8])
     spec = {'kind': 'C05', 'prop': 'C05', 'cls': cls, 'mode': mode, 'wl': wl, 'fmt_in': fmt_in, 'fmt_out': fmt_out, 'muts': muts,
@@ -272,11 +300,14 @@ def gen_spec(prop, rng, tier):
             if rng.random() < 0.2:
                 seqs[rng.randrange(len(seqs))] = ''
         spec['arr_seqs'] = seqs
+    if mode == 'lib' and rng.random() < 0.3:
+        # the other two public calls that take an msa: reformat_settings_msa (rename / unalign) and kalign_check_msa
+        spec['libops'] = [rng.choice([['M', 1, 0], ['M', 1, 1], ['M', 0, 1], ['V', 0], ['V', 0], ['V', 1]]) for _ in range(rng.choice([1, 1, 2]))]
     spec['faults'] = enumerate_faults(spec, rng, pairs=0 if tier == 'quick' else 4)
-    cost = sum(len(x) for x in wl['seqs']) * max(len(x) for x in wl['seqs']) + len(data) * 50
+    cost = sum(len(x) for x in wl['seqs']) * max(len(x) for x in wl['seqs']) + len(data) * 50 + len(wl['seqs']) * 4000
     if tier == 'quick' and cost > 3_000_000 and len(spec['faults']) > 8:
-        # expensive scenario (long rows under ASan): a seeded sample of the placements instead of all of them
-        spec['faults'] = rng.sample(spec['faults'], 8)
+        # expensive scenario (long rows or many records under ASan): a seeded sample of the placements instead of all of them
+        spec['faults'] = rng.sample(spec['faults'], 2 if cost > 30_000_000 else (8 if len(wl['seqs']) < 500 else 4))
         spec['faults_sampled'] = 1
     return spec
 
@@ -291,7 +322,7 @@ def enumerate_faults(spec, rng, pairs=0):
     """every single-fault placement for this scenario (+ `pairs` seeded two-fault combinations)"""
     if spec['mode'] == 'arr':
         return []
-    n = len(spec['data'])
+    n = len(pieces_of(spec['data'].encode('latin-1'))[0])      # faults are placed in the first source
     F = [{'k': 'stat', 'e': 'ENOENT'}, {'k': 'stat', 'e': 'EACCES'},
          {'k': 'openr', 'e': 'ENOENT'}, {'k': 'openr', 'e': 'EACCES'}, {'k': 'openr', 'e': 'EMFILE'}, {'k': 'input_is_dir'}]
     blocks = list(range(4096, n, 4096))
@@ -337,7 +368,11 @@ def build_plan(spec, fault_in, tag, junk=None):
                 stdin = ('pipe', bytes(random.Random(len(data)).randrange(256) for _ in range(300)))
             else:
                 stdin = (v, b'')
-    p.files.append((infile, kind, data if kind == 'f' else b''))
+    pieces = pieces_of(data)
+    more = ['in%d.dat' % k for k in range(1, len(pieces))]
+    p.files.append((infile, kind, pieces[0] if kind == 'f' else b''))
+    for fn, piece in zip(more, pieces[1:]):
+        p.files.append((fn, 'f', piece))
     for fault in flist(fault_in):
         k = fault['k']
         if k in ('stat', 'openr'):
@@ -356,11 +391,15 @@ def build_plan(spec, fault_in, tag, junk=None):
     p.stdin = stdin
     ix = {'outpath': outpath}
     if spec['mode'] == 'cli':
-        args = plans.cli_args(wl if spec['cls'] != 'options' else dict(wl, type=5, gpo=-1, gpe=-1, tgpe=-1), spec['nthreads'], spec['fmt_out'], infile, outpath, quiet=bool(spec['quiet']), extra=spec['extra_args'])
+        args = plans.cli_args(wl if spec['cls'] != 'options' else dict(wl, type=5, gpo=-1, gpe=-1, tgpe=-1), spec['nthreads'], spec['fmt_out'], infile, outpath, quiet=bool(spec['quiet']), extra=list(spec['extra_args']) + more)
         ix['CLI'] = p.op_CLI(args)
         ix['args'] = args
     elif spec['mode'] == 'lib':
         ix['R'] = p.op_R(0, infile, spec['quiet'])
+        for k, fn in enumerate(more):
+            ix['R%d' % (k + 1)] = p.op_R(0, fn, spec['quiet'])
+        for k, lo in enumerate(spec.get('libops') or []):
+            ix['R9%d' % k] = p.op_simple(*lo[:1] + [0] + lo[1:])
         ix['X'] = p.op_X(0, spec['nthreads'], wl['type'], wl['gpo'], wl['gpe'], wl['tgpe'])
         ix['W'] = p.op_W(0, outpath, spec['fmt_out'])
         ix['F'] = p.op_simple('F', 0)
@@ -432,6 +471,8 @@ def loose_valid(rows, data):
 def outcome(spec, res, ix, fault):
     """-> ('OK'|'FAIL'|'BAD', detail)"""
     data = spec['data'].encode('latin-1')
+    multi = CUT in data
+    data = data.replace(CUT + b'\n', b'').replace(CUT, b'')
     if res.crashed():
         return ('BAD', 'CRASH', '%s at %s' % (res.crash_class(), res.crash_site()))
     mode = spec['mode']
@@ -462,7 +503,7 @@ def outcome(spec, res, ix, fault):
         else:
             text = outs
     elif mode == 'lib':
-        for key in ('R', 'X', 'W'):
+        for key in ['R'] + sorted(k for k in ix if k[0] == 'R' and k[1:].isdigit()) + ['X', 'W']:
             o = res.op(ix[key])
             if o is None:
                 return ('BAD', 'CRASH', 'no result for %s' % key)
@@ -514,14 +555,20 @@ def outcome(spec, res, ix, fault):
                     alt_rows.append(r2)
     stdin_extra = any(f['k'] == 'stdin' and f['v'] in ('data', 'garbage') for f in fl)
     readfault = next((f for f in fl if f['k'] == 'read'), None)
-    if spec['cls'] == 'wellformed' and spec['fmt_in'] == 'fasta' and not stdin_extra and not readfault and not spec['extra_args']:
-        pr = oracles.integrity(spec['wl']['names'], spec['wl']['seqs'], rows, check_names=True)
+    srcfault = multi and any(f['k'] in ('input_is_dir', 'read', 'stat', 'openr') for f in fl)
+    if spec['cls'] == 'wellformed' and spec['fmt_in'] == 'fasta' and not stdin_extra and not readfault and not spec['extra_args'] and not srcfault:
+        names = spec['wl']['names']
+        if mode == 'lib' and any(lo[0] == 'M' and lo[1] for lo in spec.get('libops') or []):
+            names = ['SEQ%d' % (i + 1) for i in range(len(names))]      # reformat_settings_msa(rename=1)
+        pr = oracles.integrity(names, spec['wl']['seqs'], rows, check_names=True)
         if pr:
             return ('BAD', 'INVALID_ALIGNMENT', '%s: %s' % pr[0])
         return ('OK', '', '')
-    if spec['cls'] == 'wellformed' and spec['fmt_in'] == 'fasta' and readfault and not stdin_extra and not spec['extra_args']:
+    if spec['cls'] == 'wellformed' and spec['fmt_in'] == 'fasta' and readfault and not stdin_extra and not spec['extra_args'] and not multi:
         # alignment of the records delivered before the fault: full rows, the last one possibly a prefix
         names, seqs = spec['wl']['names'], spec['wl']['seqs']
+        if mode == 'lib' and any(lo[0] == 'M' and lo[1] for lo in spec.get('libops') or []):
+            names = ['SEQ%d' % (i + 1) for i in range(len(names))]      # reformat_settings_msa(rename=1)
         if len(rows) > len(names):
             return ('BAD', 'INVALID_ALIGNMENT', 'more rows than records')
         for k, (n, r) in enumerate(rows):
@@ -572,7 +619,8 @@ def judge(spec, results):
             V.append({'prop': pr, 'cls': cls, 'detail': detail, 'sig': '%s:%s' % (pr, cls), 'tag': tag})
         oc = outcome(spec, r, ix, fault)
         ocs[tag] = oc
-        desc = '[%s %s input=%s%s fault=%s%s]' % (spec['mode'], spec['cls'], spec['fmt_in'], ('+' + '+'.join(spec['muts'])) if spec['muts'] else '', fault_name(fault),
+        nsrc = spec['data'].count(CUT.decode('latin-1')) + 1
+        desc = '[%s %s input=%s%s%s fault=%s%s]' % (spec['mode'], spec['cls'], spec['fmt_in'], ('+' + '+'.join(spec['muts'])) if spec['muts'] else '', (' in %d sources' % nsrc) if nsrc > 1 else '', fault_name(fault),
                                                 (' args=' + ' '.join(spec['extra_args'])) if spec['extra_args'] else '')
         if oc[0] == 'BAD':
             if oc[1] == 'CRASH':
@@ -610,7 +658,7 @@ def judge(spec, results):
 
 
 def job_stats(spec, results):
-    st = {'scenarios_with_all_placements': 0 if spec.get('faults_sampled') else 1, 'scenarios_with_sampled_placements': 1 if spec.get('faults_sampled') else 0, 'outcomes': {}, 'faults_injected': {}, 'classes': {spec['cls']: 1}, 'modes': {spec['mode']: 1}, 'mutations': {}, 'memcheck_runs': 1 if 'vg' in results else 0}
+    st = {'sources': {str(spec['data'].count(CUT.decode('latin-1')) + 1): 1}, 'scenarios_with_all_placements': 0 if spec.get('faults_sampled') else 1, 'scenarios_with_sampled_placements': 1 if spec.get('faults_sampled') else 0, 'outcomes': {}, 'faults_injected': {}, 'classes': {spec['cls']: 1}, 'modes': {spec['mode']: 1}, 'mutations': {}, 'memcheck_runs': 1 if 'vg' in results else 0}
     for m in spec['muts']:
         st['mutations'][m] = 1
     for f in spec['faults']:
@@ -630,7 +678,7 @@ def nontrivial_keys(spec, results):
 
 
 def summary(spec, results=None):
-    return {'mode': spec['mode'], 'class': spec['cls'], 'fmt_in': spec['fmt_in'], 'mutations': spec['muts'], 'input_bytes': len(spec['data']),
+    return {'mode': spec['mode'], 'class': spec['cls'], 'fmt_in': spec['fmt_in'], 'mutations': spec['muts'], 'input_bytes': len(spec['data']), 'sources': spec['data'].count(CUT.decode('latin-1')) + 1,
             'input_head': spec['data'][:120], 'extra_args': spec['extra_args'], 'outpath': spec['outpath'],
             'faults': [fault_name(f) for f in spec['faults']]}
 
